@@ -81,7 +81,7 @@ def run(ctx) -> None:
     r14_5(ctx)
     r14_6(ctx)
     ctx.floor("registration_sites", 3)
-    ctx.floor("unwind_scenarios", 80)
+    ctx.floor("unwind_scenarios", 170)
 
 
 # --------------------------------------------------------------------------- R14.1
@@ -221,9 +221,15 @@ class _UnwindOps:
         call = node.info.get("value")
         if isinstance(call, ast.Call) and isinstance(call.func, ast.Name):
             fv = env.get(call.func.id)
-            if isinstance(fv, str) and fv.startswith("CB") and self.scenario[fv] == "R":
+            if isinstance(fv, str) and fv.startswith("CB") and self.scenario[fv] in ("R", "S"):
                 ev = AbsEval(self)
                 args = tuple(ev.eval(a, env) for a in call.args)
+                if self.scenario[fv] == "S":
+                    # re-raises the very exception object it was handed (nothing to re-raise: behaves like falsy)
+                    if len(args) < 2 or not (isinstance(args[1], str) and args[1].startswith("E")):
+                        return None
+                    env["@trace"] = env["@trace"] + ((fv, args),)
+                    return args[1]
                 env["@trace"] = env["@trace"] + ((fv, args),)
                 return "E_" + fv
         return None
@@ -290,7 +296,7 @@ def r14_2(ctx, end: str) -> None:
     table = []
     depth = 5 if getattr(ctx, "tier", "quick") == "thorough" and not getattr(ctx, "_shared", False) else 4
     for n in range(0, depth):
-        for outcomes in itertools.product("FTR", repeat=n):
+        for outcomes in itertools.product("FTRS" if n <= 3 else "FTR", repeat=n):
             for received in (False, True):
                 ctx.count("unwind_scenarios")
                 scenario = {f"CB{k + 1}": outcomes[k] for k in range(n)}
@@ -469,6 +475,25 @@ def r14_4(ctx) -> None:
         table["sync object without __exit__"] = f"{oc.terminal.kind}; entered={entered}; registered={len(regs)}"
         ctx.check(ok, "R14.4", u, "enter_context", "[sync object without __exit__] it is rejected before being entered "
                   "(nothing could ever exit it)", witness=table["sync object without __exit__"])
+    # an async manager whose __aenter__ itself raises AttributeError: that error is the caller's — it must not
+    # be read as "not an async context manager" (and the sync protocol tried instead)
+    ctx.count("enter_context_cells")
+
+    class _AttrErrOps(_EnterOps):
+        def raises(self, node, env):
+            if self._is_enter(node) == "aenter":
+                return ("new", "AttributeError")
+            return super().raises(node, env)
+
+    ops = _AttrErrOps(cm, True, True)
+    outs = Machine(cfg, ops, resolver=make_resolver(ctx, u, ops, skip=("awaitify",))).run({me: "SELF", cm: "CM"})
+    for oc in outs:
+        entered, regs = oc.env.get("@entered", ()), oc.env.get("@registered", ())
+        ok = oc.terminal.kind == "raise_exit" and not regs and "enter" not in entered
+        table["async manager whose __aenter__ raises AttributeError"] = f"{oc.terminal.kind}; entered={entered}; registered={len(regs)}"
+        ctx.check(ok, "R14.4", u, "enter_context", "[async manager whose __aenter__ raises AttributeError] the error propagates; "
+                  "the manager is not re-entered through the synchronous protocol",
+                  witness=table["async manager whose __aenter__ raises AttributeError"])
     ctx.tables["enter_context"] = table
 
 
